@@ -38,6 +38,7 @@ type Engine struct {
 	lemmas    []*Lemma
 	globalInvs map[string][]*Lemma // package -> global invariants
 	monitors   map[string][]*Monitor // package -> monitors
+	ghostVars  map[string]TypeExpr   // ghost state variables (global names)
 	lemmaPkg  map[*Lemma]string
 	rawSMT    []string
 
@@ -62,6 +63,7 @@ func NewEngine(repo string) *Engine {
 		axiomPkg:  map[*Lemma]string{},
 		globalInvs: map[string][]*Lemma{},
 		monitors:   map[string][]*Monitor{},
+		ghostVars:  map[string]TypeExpr{},
 		lemmaPkg:  map[*Lemma]string{},
 		typeIDs:   map[string]int{},
 		funcIDs:   map[string]int{},
@@ -284,7 +286,7 @@ func (e *Engine) addContractText(pkg, path, text string, goFile bool) error {
 	}
 	e.files = append(e.files, cf)
 	for _, fc := range cf.Funcs {
-		name := qualifyFuncName(cf.Pkg, fc.Name)
+		name := qualifyFuncName(cf.Pkg, e.expandAlias(cf.Pkg, fc.Name))
 		if old, dup := e.contracts[name]; dup {
 			return fmt.Errorf("%s: duplicate contract for %s (also at %s)", fc.Line, name, old.Line)
 		}
@@ -323,6 +325,9 @@ func (e *Engine) addContractText(pkg, path, text string, goFile bool) error {
 	}
 	e.globalInvs[cf.Pkg] = append(e.globalInvs[cf.Pkg], cf.Invs...)
 	e.monitors[cf.Pkg] = append(e.monitors[cf.Pkg], cf.Monitors...)
+	for _, g := range cf.GhostVars {
+		e.ghostVars[g.Name] = g.T
+	}
 	for _, l := range cf.Lemmas {
 		e.lemmas = append(e.lemmas, l)
 		e.lemmaPkg[l] = cf.Pkg
@@ -423,4 +428,44 @@ func (e *Engine) lookupType(pkg string, text string) (types.Type, bool) {
 		return tn.Type(), true
 	}
 	return nil, false
+}
+
+// expandAlias replaces a leading package alias (as imported by pkg) in a
+// function name written in a contract file by the full import path:
+// "module.EscapePath" -> "cuelang.org/go/mod/module.EscapePath",
+// "(module.Version).M" -> "(cuelang.org/go/mod/module.Version).M".
+func (e *Engine) expandAlias(pkg, name string) string {
+	name = strings.TrimSpace(name)
+	p, ok := e.pkgs[pkg]
+	if !ok {
+		return name
+	}
+	resolve := func(alias string) string {
+		for ip, imp := range p.Imports {
+			if imp.Name == alias {
+				return ip
+			}
+		}
+		return ""
+	}
+	if strings.HasPrefix(name, "(") {
+		j := strings.Index(name, ")")
+		recv := name[1:j]
+		star := ""
+		if strings.HasPrefix(recv, "*") {
+			star, recv = "*", recv[1:]
+		}
+		if k := strings.Index(recv, "."); k > 0 && !strings.Contains(recv, "/") {
+			if ip := resolve(recv[:k]); ip != "" {
+				return "(" + star + ip + recv[k:] + ")" + name[j+1:]
+			}
+		}
+		return name
+	}
+	if k := strings.Index(name, "."); k > 0 && !strings.Contains(name[:k], "/") && !strings.Contains(name, "$") {
+		if ip := resolve(name[:k]); ip != "" {
+			return ip + name[k:]
+		}
+	}
+	return name
 }
